@@ -284,7 +284,7 @@ def run_moves(job):
     db = make_db(scheme, cfg, profile, rnd)
     cfg = se.fit(scheme, cfg, profile, db)
     rec = {"kind": "moves", "scheme": scheme, "p": list(profile), "c": se.numbers(scheme, cfg), "setup": "raised",
-           "samekey": False, "run1": [], "run2": [], "inb1": [], "inb2": []}
+           "samekey": False, "run1": [], "run2": [], "inb1": [], "inb2": [], "partial": False}
     out = {"rec": rec, "meta": {"kind": "moves", "scheme": scheme, "gi": gi, "cfg": cfg, "p": list(profile), "seed": sd}, "err": ""}
     ml = sc.load(scheme)
     try:
@@ -303,11 +303,17 @@ def run_moves(job):
     # from here on the harness looks INTO the index (list-typed members, bucket contents): a failure of that access is the
     # harness being out of date, not the scheme refusing a valid database
     try:
-        rec["run1"] = slots_per_keyword(scheme, sch, k1, e1, db)
-        rec["run2"] = slots_per_keyword(scheme, sch, k2, e2, db)
+        # a large database: the searches of 48 keywords (the first and the last 24) are observed - that every one of them reads
+        # the same slots in both indexes is no likelier for that - and the occupants of the buckets six of them read
+        kws = list(db)
+        dbs = db if len(kws) <= 100 else {w: db[w] for w in kws[:24] + kws[-24:]}
+        rec["partial"] = dbs is not db
+        rec["run1"] = slots_per_keyword(scheme, sch, k1, e1, dbs)
+        rec["run2"] = slots_per_keyword(scheme, sch, k2, e2, dbs)
         if scheme == "DP17.Pi":
-            rec["inb1"] = dp_occupants(sch, k1, e1, db, rec["run1"])
-            rec["inb2"] = dp_occupants(sch, k2, e2, db, rec["run2"])
+            lim = 6 if (dbs is not db or sum(profile) > 1000) else None
+            rec["inb1"] = dp_occupants(sch, k1, e1, db, rec["run1"][:lim])
+            rec["inb2"] = dp_occupants(sch, k2, e2, db, rec["run2"][:lim])
             for inb in (rec["inb1"], rec["inb2"]):
                 if inb and not any(w[0] for bk in inb for w in bk["occ"]):
                     raise MachineryError("no entry of the buckets read could be attributed to a keyword: the harness does not understand the bucket format")
@@ -417,6 +423,11 @@ def move_candidates(tr, rnd):
         for _ in range(per):
             k = rnd.randint(12, 28)
             out.append(("DP17.Pi", gi, cfg, [rnd.randint(1, rnd.choice([2, 4, 6])) for _ in range(k)]))
+    # large databases with the default configurations (a placement that turns deterministic above a size threshold)
+    # N = 4192: levels 13, 8, 3; the 24 short lists go to level 3, which has 525 buckets (the two long lists only make N large)
+    out.append(("DP17.Pi", -4, sc.default_config("DP17.Pi"), [8] * 24 + [2000, 2000]))
+    out.append(("CJJ14.PiPtr", -4, sc.default_config("CJJ14.PiPtr"), [100] * 170))
+    out.append(("CJJ14.Pi2Lev", -4, sc.default_config("CJJ14.Pi2Lev"), [100] * 170))
     return out
 
 
@@ -528,8 +539,9 @@ def main(argv_tier=None, replay_path=None):
     # reversed; labels are passed to TLC as ranks
     big_schemes = LABEL_SCHEMES if tr == "thorough" else LABEL_SCHEMES[(sd % 2)::2] + ["CJJ14.PiBas"]
     for s in dict.fromkeys(big_schemes):
-        k = 170
-        p = [rnd.randint(100, 140) for _ in range(k)]
+        # (PiBas: 70 000 pairs - setup is cheap there; the others: 20 000)
+        k, lo, hi = (350, 190, 210) if s == "CJJ14.PiBas" else (170, 100, 140)
+        p = [rnd.randint(lo, hi) for _ in range(k)]
         jobs.append((s, -4, sc.default_config(s), p, list(range(k, 0, -1)), sd + len(jobs), True))
     # ---- (ii) model: placement bounds, usable families
     cands = move_candidates(tr, rnd)
@@ -553,12 +565,17 @@ def main(argv_tier=None, replay_path=None):
         den = prod(f["factors"])
         if den < NEED:
             raise MachineryError("FamilyOK accepted %s %s with only %d placements" % (s, p, den))
-        b = {"scheme": s, "cfg": gi, "p": p, "array_blocks": f["blocks"], "equally_likely_placements_at_least": str(den),
-             "p_identical_two_setups_at_most": "%.3e" % (1.0 / den)}
+        def inv(x):
+            return "%.3e" % (1.0 / x) if x.bit_length() < 990 else "1e-298"
+
+        def big(x):
+            return str(x) if x.bit_length() < 190 else "> 2^%d" % (x.bit_length() - 1)
+        b = {"scheme": s, "cfg": gi, "p": p if len(p) <= 40 else "%s x %d ..." % (p[0], len(p)), "array_blocks": f["blocks"],
+             "equally_likely_placements_at_least": big(den), "p_identical_two_setups_at_most": inv(den)}
         if s == "DP17.Pi":
             den2 = prod(f["inbucket"])
-            b["inbucket_arrangements_at_least"] = str(den2)
-            b["p_append_order_at_most"] = "%.3e" % (1.0 / den2)
+            b["inbucket_arrangements_at_least"] = big(den2)
+            b["p_append_order_at_most"] = inv(den2)
         bounds.append(b)
         mjobs.append((s, gi, cfg, p, sd + 500000 + len(mjobs)))
     for s in MOVE_SCHEMES:
@@ -604,7 +621,7 @@ def main(argv_tier=None, replay_path=None):
                 den *= n if r in (1, n - 1) else n * (n - 1) // 2
         return den
     dp_guards = [min(lead_guard(o["rec"]["inb1"]), lead_guard(o["rec"]["inb2"])) for o in mov if o["meta"]["scheme"] == "DP17.Pi" and o["rec"]["setup"] == "built"]
-    total_fa += sum(2.0 / g for g in dp_guards if g >= NEED)
+    total_fa += sum((2.0 / g if g.bit_length() < 990 else 0.0) for g in dp_guards if g >= NEED)
     sample_lab = copy.deepcopy(lab[len(lab) // 3]["rec"])
     for t in sample_lab["tables"]:
         t["a"] = [bytes(x).hex() for x in t["a"]]
